@@ -24,6 +24,11 @@ type vfFixture struct {
 }
 
 func newVfFixture(name string, listenAddr string, udpPort int, backends []string, dialogTimeout int64, keepNextHop, mustRR, receivedSupport bool, routes *PreConfigRoute, hosts *PreConfigHostResolver) (*vfFixture, error) {
+	return newVfFixtureLP(name, listenAddr, udpPort, backends, dialogTimeout, keepNextHop, mustRR, receivedSupport, routes, hosts, 0)
+}
+
+// backendLocalPort: the listener's backend-local-port setting (0 = not configured)
+func newVfFixtureLP(name string, listenAddr string, udpPort int, backends []string, dialogTimeout int64, keepNextHop, mustRR, receivedSupport bool, routes *PreConfigRoute, hosts *PreConfigHostResolver, backendLocalPort int) (*vfFixture, error) {
 	if routes == nil {
 		routes = NewPreConfigRoute()
 	}
@@ -32,7 +37,7 @@ func newVfFixture(name string, listenAddr string, udpPort int, backends []string
 	}
 	slr := NewSelfLearnRoute()
 	p := NewProxy(name, dialogTimeout, listenAddr, keepNextHop, routes, hosts, slr, receivedSupport, mustRR)
-	item, err := NewProxyItem(listenAddr, udpPort, 0, listenAddr, 0, backends, nil, receivedSupport, false, p, slr, p)
+	item, err := NewProxyItem(listenAddr, udpPort, 0, listenAddr, backendLocalPort, backends, nil, receivedSupport, false, p, slr, p)
 	if err != nil {
 		return nil, err
 	}
